@@ -31,7 +31,10 @@ EXTENDS PersistFmt, Json, TLC
 CONSTANTS Kind,        \* "dv" | "dvb" | "sv" | "svb" | "dm" | "csr" | "bcsr" | "cscr" | "banded"
           MaxM, MaxN,  \* sizes 0..MaxM (x 0..MaxN for matrices; block counts for blocked kinds)
           BH, BW,      \* block size of dvb/svb (BH) resp. block shape of bcsr
-          Pal          \* value palette 1 | 2
+          Pal          \* value palette 1 | 2: fixed values (2: with zeros and repeats);
+                       \* 3: palette 1 and EVERY assignment {keep, +0, -0} to the stored entries (stored zeros);
+                       \* 4: as 3 without -0;  5: (csr) square matrices with symmetric pattern and values, every
+                       \*    symmetric assignment {keep, +0, -0}: adds the symmetric MatrixMarket mode "mtxsym"
 
 VARIABLES ph,    \* "init" | "written" | "read"
           c,     \* the container
@@ -41,45 +44,76 @@ VARIABLES ph,    \* "init" | "written" | "read"
 vars == <<ph, c, call, file, back>>
 
 Den == 4
-PV(k) == IF Pal = 1 THEN (IF k % 2 = 1 THEN 2 * k + 1 ELSE -(k + 4))     \* 3,-6,7,-8,11,... (over 4)
-         ELSE ((k * 5) % 7) - 3                                            \* -3..3 with zeros and repeats
-MVal(i, j) == PV((i - 1) * 5 + j)
+PV(k) == IF Pal = 2 THEN ((k * 5) % 7) - 3                                 \* -3..3 with zeros and repeats
+         ELSE (IF k % 2 = 1 THEN 2 * k + 1 ELSE -(k + 4))                  \* 3,-6,7,-8,11,... (over 4)
+Sym == Pal = 5
+MVal(i, j) == IF Sym THEN PV((Min(i, j) - 1) * 5 + Max(i, j)) ELSE PV((i - 1) * 5 + j)
+
+(***************************************************************************)
+(* Stored zeros.  A mask assigns to every STORED entry one of               *)
+(*   0 keep the palette value, 1 the value +0, 2 the value -0 (NegZero).    *)
+(* An entry that is stored stays stored whatever its value is.              *)
+(***************************************************************************)
+MaskVals == CASE Pal \in {3, 5} -> 0..2 [] Pal = 4 -> 0..1 [] OTHER -> {0}
+Msk(q, v) == CASE q = 0 -> v [] q = 1 -> 0 [] q = 2 -> NegZero
+Masks(S) == [S -> MaskVals]
+\* masked vector values / masked dense matrix (positions outside DOMAIN f keep their value)
+MVals(len, f) == [k \in 1..len |-> Msk(f[k], PV(k))]
+MD(mm, nn, f) == [i \in 1..mm |-> [j \in 1..nn |-> IF <<i, j>> \in DOMAIN f THEN Msk(f[<<i, j>>], MVal(i, j)) ELSE MVal(i, j)]]
+\* symmetric mask given on the lower triangle of a symmetric pattern
+Lower(P) == {e \in P : e[1] >= e[2]}
+SymPat(P) == \A e \in P : <<e[2], e[1]>> \in P
+MirrorMask(P, g) == [e \in P |-> IF e[1] >= e[2] THEN g[e] ELSE g[<<e[2], e[1]>>]]
+PatMasks(P) == IF Sym THEN {MirrorMask(P, g) : g \in Masks(Lower(P))} ELSE Masks(P)
+Patterns(mm, nn) == IF Sym THEN {P \in SUBSET ((1..mm) \X (1..nn)) : SymPat(P)} ELSE SUBSET ((1..mm) \X (1..nn))
+\* BCSR: the mask is given per stored BLOCK: 1 = a block of zeros, 2 = a block with +0 and -0 next to kept values
+BlkMsk(q, li, lj, v) == CASE q = 0 -> v [] q = 1 -> 0 [] q = 2 -> IF (li + lj) % 2 = 0 THEN v ELSE IF li = 1 THEN 0 ELSE NegZero
+BMD(mb, nb, f) == [i \in 1..(mb * BH) |-> [j \in 1..(nb * BW) |->
+                     LET b == <<((i - 1) \div BH) + 1, ((j - 1) \div BW) + 1>>
+                     IN  IF b \in DOMAIN f THEN BlkMsk(f[b], ((i - 1) % BH) + 1, ((j - 1) % BW) + 1, MVal(i, j)) ELSE MVal(i, j)]]
 
 (***************************************************************************)
 (* Containers and calls                                                      *)
 (***************************************************************************)
-Vals(len) == [k \in 1..len |-> PV(k)]
 DenseD(mm, nn) == [i \in 1..mm |-> [j \in 1..nn |-> MVal(i, j)]]
 Mk(kind, mm, nn, rep) == [kind |-> kind, m |-> mm, n |-> nn, bh |-> BH, bw |-> BW, rep |-> rep, alloc |-> FALSE]
 \* the entry-free container with allocated array slots of length 0 (see PersistFmt!Arrays)
 MkAlloc(kind, mm, nn, rep) == [kind |-> kind, m |-> mm, n |-> nn, bh |-> BH, bw |-> BW, rep |-> rep, alloc |-> TRUE]
+Dims == IF Sym THEN {<<mm, mm>> : mm \in 0..Min(MaxM, MaxN)} ELSE (0..MaxM) \X (0..MaxN)
+Dims1 == {d \in Dims : d[1] >= 1 /\ d[2] >= 1}
 Containers ==
-  CASE Kind = "dv"  -> {Mk("dv", mm, 1, [va |-> Vals(mm)]) : mm \in 0..MaxM}
-    [] Kind = "dvb" -> {Mk("dvb", mm, 1, [va |-> Vals(mm * BH)]) : mm \in 0..MaxM}
-    [] Kind = "sv"  -> UNION {{Mk("sv", mm, 1, [idx |-> SetToSortSeq(I, <), va |-> Vals(Cardinality(I))]) : I \in SUBSET (0..(mm - 1))} : mm \in 0..MaxM}
+  CASE Kind = "dv"  -> UNION {{Mk("dv", mm, 1, [va |-> MVals(mm, f)]) : f \in Masks(1..mm)} : mm \in 0..MaxM}
+    [] Kind = "dvb" -> UNION {{Mk("dvb", mm, 1, [va |-> MVals(mm * BH, f)]) : f \in Masks(1..(mm * BH))} : mm \in 0..MaxM}
+    [] Kind = "sv"  -> UNION {UNION {{Mk("sv", mm, 1, [idx |-> SetToSortSeq(I, <), va |-> MVals(Cardinality(I), f)]) : f \in Masks(1..Cardinality(I))} :
+                                     I \in SUBSET (0..(mm - 1))} : mm \in 0..MaxM}
                        \cup {MkAlloc("sv", mm, 1, [idx |-> <<>>, va |-> <<>>]) : mm \in 1..MaxM}
-    [] Kind = "svb" -> UNION {{Mk("svb", mm, 1, [idx |-> SetToSortSeq(I, <), va |-> Vals(Cardinality(I) * BH)]) : I \in SUBSET (0..(mm - 1))} : mm \in 0..MaxM}
+    [] Kind = "svb" -> UNION {UNION {{Mk("svb", mm, 1, [idx |-> SetToSortSeq(I, <), va |-> MVals(Cardinality(I) * BH, f)]) : f \in Masks(1..(Cardinality(I) * BH))} :
+                                     I \in SUBSET (0..(mm - 1))} : mm \in 0..MaxM}
                        \cup {MkAlloc("svb", mm, 1, [idx |-> <<>>, va |-> <<>>]) : mm \in 1..MaxM}
-    [] Kind = "dm"  -> {Mk("dm", mm, nn, DenseOf(mm, nn, DenseD(mm, nn))) : mm \in 1..MaxM, nn \in 1..MaxN}     \* DenseMatrix requires non-zero dimensions
-    [] Kind = "csr" -> UNION {{Mk("csr", mm, nn, CSROf(mm, nn, DenseD(mm, nn), P)) : P \in SUBSET ((1..mm) \X (1..nn))} : mm \in 0..MaxM, nn \in 0..MaxN}
-                       \cup {MkAlloc("csr", mm, nn, CSROf(mm, nn, DenseD(mm, nn), {})) : mm \in 1..MaxM, nn \in 1..MaxN}
-    [] Kind = "bcsr" -> UNION {{Mk("bcsr", mm, nn, BCSROf(mm, nn, BH, BW, DenseD(mm * BH, nn * BW), P)) : P \in SUBSET ((1..mm) \X (1..nn))} : mm \in 0..MaxM, nn \in 0..MaxN}
-                        \cup {MkAlloc("bcsr", mm, nn, BCSROf(mm, nn, BH, BW, DenseD(mm * BH, nn * BW), {})) : mm \in 1..MaxM, nn \in 1..MaxN}
-    [] Kind = "cscr" -> UNION {UNION {{Mk("cscr", mm, nn, CSCROf(mm, nn, DenseD(mm, nn), P, R)) :
-                                 R \in {R \in SUBSET (1..mm) : {e[1] : e \in P} \subseteq R /\ (P = {} => R = {})}} :
-                                 P \in SUBSET ((1..mm) \X (1..nn))} : mm \in 0..MaxM, nn \in 0..MaxN}
-                        \cup {MkAlloc("cscr", mm, nn, CSCROf(mm, nn, DenseD(mm, nn), {}, {})) : mm \in 1..MaxM, nn \in 1..MaxN}
-    [] Kind = "banded" -> UNION {{Mk("banded", mm, nn, BandedOf(mm, nn, DenseD(mm, nn), O, 0)) : O \in SUBSET (0..(mm + nn - 2))} : mm \in 1..MaxM, nn \in 1..MaxN}   \* (no offsets: arrays of length 0)
-TextModes(kind) == CASE kind \in {"dv", "dvb"} -> {"exp", "mtx"} [] kind \in {"sv", "dm", "csr", "bcsr"} -> {"mtx"} [] OTHER -> {}
+    [] Kind = "dm"  -> UNION {{Mk("dm", d[1], d[2], DenseOf(d[1], d[2], MD(d[1], d[2], f))) : f \in Masks((1..d[1]) \X (1..d[2]))} : d \in Dims1}     \* DenseMatrix requires non-zero dimensions
+    [] Kind = "csr" -> UNION {UNION {{Mk("csr", d[1], d[2], CSROf(d[1], d[2], MD(d[1], d[2], f), P)) : f \in PatMasks(P)} : P \in Patterns(d[1], d[2])} : d \in Dims}
+                       \cup {MkAlloc("csr", d[1], d[2], CSROf(d[1], d[2], DenseD(d[1], d[2]), {})) : d \in Dims1}
+    [] Kind = "bcsr" -> UNION {UNION {{Mk("bcsr", d[1], d[2], BCSROf(d[1], d[2], BH, BW, BMD(d[1], d[2], f), P)) : f \in Masks(P)} : P \in SUBSET ((1..d[1]) \X (1..d[2]))} : d \in Dims}
+                        \cup {MkAlloc("bcsr", d[1], d[2], BCSROf(d[1], d[2], BH, BW, DenseD(d[1] * BH, d[2] * BW), {})) : d \in Dims1}
+    [] Kind = "cscr" -> UNION {UNION {UNION {{Mk("cscr", d[1], d[2], CSCROf(d[1], d[2], MD(d[1], d[2], f), P, R)) : f \in Masks(P)} :
+                                 R \in {R \in SUBSET (1..d[1]) : {e[1] : e \in P} \subseteq R /\ (P = {} => R = {})}} :
+                                 P \in SUBSET ((1..d[1]) \X (1..d[2]))} : d \in Dims}
+                        \cup {MkAlloc("cscr", d[1], d[2], CSCROf(d[1], d[2], DenseD(d[1], d[2]), {}, {})) : d \in Dims1}
+    [] Kind = "banded" -> UNION {UNION {{Mk("banded", d[1], d[2], BandedOf(d[1], d[2], MD(d[1], d[2], f), O, 0)) : f \in Masks(BandPattern(d[1], d[2], O))} :
+                                   O \in SUBSET (0..(d[1] + d[2] - 2))} : d \in Dims1}   \* (no offsets: arrays of length 0)
+\* the symmetric MatrixMarket variant write_out(fm_mtx, file, true) of CSR is defined for symmetric matrices only
+TextModes(cc) == CASE cc.kind \in {"dv", "dvb"} -> {"exp", "mtx"} [] cc.kind \in {"sv", "dm", "bcsr"} -> {"mtx"}
+                   [] cc.kind = "csr" -> {"mtx"} \cup (IF Sym /\ SymCSR(cc.m, cc.n, cc.rep) THEN {"mtxsym"} ELSE {})
+                   [] OTHER -> {}
 \* write_out/read_from binary modes always (de)serialise as <double, uint64>; serialize<DT2,IT2>()/deserialize
 \* ("ser") take the serialisation types as template parameters
-Calls(kind) ==
-  {[mode |-> mo, cdt |-> t[1], cit |-> t[2], sdt |-> 8, sit |-> 8] : mo \in TextModes(kind) \cup {NativeMode(kind), "binary"}, t \in {<<8, 8>>, <<4, 4>>}}
+Calls(cc) ==
+  {[mode |-> mo, cdt |-> t[1], cit |-> t[2], sdt |-> 8, sit |-> 8] : mo \in TextModes(cc) \cup {NativeMode(cc.kind), "binary"}, t \in {<<8, 8>>, <<4, 4>>}}
   \cup {[mode |-> "ser", cdt |-> t[1], cit |-> t[2], sdt |-> s[1], sit |-> s[2]] : t \in {<<8, 8>>, <<4, 4>>}, s \in {<<8, 8>>, <<8, 4>>, <<4, 8>>, <<4, 4>>}}
-IsBin(mode) == mode \notin {"exp", "mtx"}
+IsBin(mode) == mode \notin {"exp", "mtx", "mtxsym"}
 
 Init ==
-  /\ ph = "init" /\ c \in Containers /\ call \in Calls(Kind)
+  /\ ph = "init" /\ c \in Containers /\ call \in Calls(c)
   /\ file = [fmt |-> "none"] /\ back = [fmt |-> "none"]
 Write ==
   /\ ph = "init" /\ ph' = "written"
@@ -97,9 +131,26 @@ Spec == Init /\ [][Next]_vars
 \* ---- properties --------------------------------------------------------------------------------------
 RoundTrip == ph = "read" => back = (IF IsBin(call.mode) THEN Arrays(c) ELSE AbsView(c, call.mode))
 LayoutOK == ph # "init" /\ IsBin(call.mode) => BinLayoutOK(file)
+\* a text file lists EVERY stored entry, whatever its value (the symmetric format: every stored entry of the lower
+\* triangle), and the entry count of a coordinate header is the number of entry lines
+StoredWritten == ph # "init" /\ ~IsBin(call.mode) =>
+  LET ls == IF call.mode = "exp" THEN file.lines ELSE Tail(file.lines)          \* (the MatrixMarket formats start with the size line)
+  IN  /\ call.mode # "mtxsym" => Len(ls) = StoredCount(c)
+      /\ call.mode = "mtxsym" => Len(ls) = Cardinality(Lower(PatCSR(c.m, c.rep)))
+      /\ file.hdr \in {HdrCoord, HdrCoordSym} => file.lines[1].i[3] = Len(ls)
+\* the pattern survives a text round trip also where stored values are zero
+PatternKept == ph = "read" /\ ~IsBin(call.mode) /\ c.kind \in {"sv", "csr"} =>
+  /\ back.used = StoredCount(c)
+  /\ c.kind = "sv" => back.idx = c.rep.idx
+  /\ c.kind = "csr" => back.rep.ci = c.rep.ci /\ back.rep.rp = c.rep.rp
+\* non-vacuity of the stored-zero palettes is measured by the check (cases with stored zeros per kind x mode)
+NumZeros(cc) ==
+  LET v == IF cc.kind = "bcsr" THEN Flatten([k \in 1..Len(cc.rep.va) |-> Flatten(cc.rep.va[k])]) ELSE cc.rep.va
+  IN  <<Cardinality({k \in 1..Len(v) : v[k] = 0}), Cardinality({k \in 1..Len(v) : v[k] = NegZero})>>
 
 Emit == ph = "read" =>
-  PrintT(ToJson([part |-> "io", kind |-> c.kind, m |-> c.m, n |-> c.n, bh |-> c.bh, bw |-> c.bw, den |-> Den, rep |-> c.rep, arrays |-> Arrays(c),
+  PrintT(ToJson([part |-> "io", kind |-> c.kind, m |-> c.m, n |-> c.n, bh |-> c.bh, bw |-> c.bw, den |-> Den, negzero |-> NegZero, pal |-> Pal,
+                 zeros |-> NumZeros(c), rep |-> c.rep, arrays |-> Arrays(c),
                  alloc |-> c.alloc, mode |-> call.mode, cdt |-> call.cdt, cit |-> call.cit, sdt |-> call.sdt, sit |-> call.sit,
                  file |-> file, back |-> back]))
 =============================================================================
